@@ -345,7 +345,10 @@ fn history_child(log: &mut iso::Log, bin: &std::path::Path, src_name: &str, plan
                         Err(bugstalker::debugger::Error::ProcessExit(c)) => format!("process-exit:{c}"),
                         Err(e) => format!("err:{e}"),
                     };
-                    log.put(json!({"ev": "cmd_end", "k": k, "kind": kind.name(), "res": res, "regs": regs, "evs": evs_json(&evs), "users": users}));
+                    // C02 for step commands: afterwards the text differs from the ELF file at the user's breakpoints
+                    // (and the entry point) only - no temporary breakpoint of the step may be left behind
+                    let patched: Option<Vec<u64>> = if regs.is_some() { crate::leg_c01::patched_addresses(pid, bin).ok() } else { None };
+                    log.put(json!({"ev": "cmd_end", "k": k, "kind": kind.name(), "res": res, "regs": regs, "evs": evs_json(&evs), "users": users, "patched": patched}));
                     if regs.is_none() {
                         break;
                     }
@@ -509,11 +512,14 @@ fn coq_prelude(p: &Prep, user_unit: usize) -> String {
         let pe = u.rows[start..].iter().find(|r| r.prologue_end).map(|r| r.addr).unwrap_or(f.lo);
         let file = u.rows.iter().find(|r| r.addr == f.lo && !r.end_seq).map(|r| r.file);
         let pe_idx = u.rows[start..].iter().position(|r| r.prologue_end).map(|x| x + start).unwrap_or(start);
-        let epi = u.rows[pe_idx..].iter().take_while(|r| r.addr < f.hi).find(|r| r.epilogue_begin && r.addr >= f.lo).map(|r| r.addr + BIAS);
+        let epi_idx = u.rows[pe_idx..].iter().take_while(|r| r.addr < f.hi).position(|r| r.epilogue_begin && r.addr >= f.lo).map(|x| x + pe_idx);
+        let epi = epi_idx.map(|i| u.rows[i].addr + BIAS);
+        // step.rs: the epilogue lasts until the first later row of another (file, line)
+        let epi_end = epi_idx.and_then(|i| u.rows[i + 1..].iter().find(|r| r.file != u.rows[i].file || r.line != u.rows[i].line).map(|r| r.addr + BIAS));
         funcs.push(format!(
-            "{{| f_lo := {}; f_hi := {}; f_prolog_end := {}; f_epilog := {}; f_file := {}; f_inline := [] |}}",
+            "{{| f_lo := {}; f_hi := {}; f_prolog_end := {}; f_epilog := {}; f_epilog_end := {}; f_file := {}; f_inline := [] |}}",
             cf::n((f.lo + BIAS) as u128), cf::n((f.hi + BIAS) as u128), cf::n((pe + BIAS) as u128),
-            cf::option(&epi, |a| cf::n(*a as u128)), cf::option(&file, |x| cf::n(*x as u128))
+            cf::option(&epi, |a| cf::n(*a as u128)), cf::option(&epi_end, |a| cf::n(*a as u128)), cf::option(&file, |x| cf::n(*x as u128))
         ));
     }
     let units: Vec<String> = u.seqs.iter().filter(|s| s.0 != 0).map(|(a, b)| format!("({}, {})", cf::n((a + BIAS) as u128), cf::n((b + BIAS) as u128))).collect();
@@ -546,6 +552,8 @@ pub fn run_history(p: &Prep, scratch: &str, tag: &str, plan: &Plan, timeout_ms: 
         eprintln!("   stderr: {}", res.stderr.chars().take(400).collect::<String>());
     }
     let mut cur: Option<usize> = None;
+    let bin_len = std::fs::metadata(&p.bin).map(|m| m.len()).unwrap_or(0);
+    let entry_addr = std::fs::read(&p.bin).ok().and_then(|b| b.get(24..32).map(|x| u64::from_le_bytes(x.try_into().unwrap()))).unwrap_or(0) + BIAS;
     let mut bp_addrs: Vec<u64> = vec![];
     let mut pending: Option<(Kind, bool)> = None; // (kind, at a self-jump)
     let mut selfjump = false;
@@ -618,6 +626,14 @@ pub fn run_history(p: &Prep, scratch: &str, tag: &str, plan: &Plan, timeout_ms: 
                     None => (None, false),
                 };
                 let (mut ok, mut key, mut note) = classify(p, kind, i, s, exited, lost_now, &users);
+                if let Some(pa) = l["patched"].as_array() {
+                    let entry = entry_addr;
+                    let extra: Vec<u64> = pa.iter().filter_map(|x| x.as_u64()).filter(|a| !users.contains(a) && *a != entry).collect();
+                    let missing: Vec<u64> = users.iter().copied().filter(|u| *u >= BIAS && *u < BIAS + bin_len).filter(|u| !pa.iter().any(|x| x.as_u64() == Some(*u))).collect();
+                    if !extra.is_empty() || !missing.is_empty() {
+                        out.findings.push(("text-not-clean".to_string(), format!("after {} the text differs from the ELF file at {:x?} besides the user's breakpoints; user breakpoints without a trap byte: {:x?}", kind.name(), extra, missing)));
+                    }
+                }
                 // what the debugger said
                 let step_ev = evs.iter().find(|e| e["t"] == "step");
                 let mut place = None;
